@@ -125,6 +125,9 @@ def get_result_from_cache(
     result_from_cache = False
     if cache_key is not None and cache_key in cache:
         r = cache.get(cache_key)
+        if r is None and cache_key not in cache:
+            # The entry was evicted (by another process) in between
+            return False, False
         _update_all_results(func, r, output_name, all_results, lazy)
         result_from_cache = True
         if not full_output:
